@@ -1282,6 +1282,16 @@ class C11(Base):
         ids = W.distinct_ids(rng, 2 * n, 1, 5000)
         rng.shuffle(ids)
         qs, truths = W.make_queries(rng, refs, n, mix, ids=ids[:n], lattice=W.LATTICE)
+        if rng.random() < 0.25:
+            # a reference only ~3 seeding bins longer than a reverse-strand query covering all of it: the seeding correlation
+            # has about three lags, and on one strand often no interior peak at all
+            tr = W.ref_lattice(rng, max(r["id"] for r in refs) + rng.randint(1, 30), rng.randint(20, 36))
+            shift = rng.choice([1, 2]) * W.LATTICE - tr["pos"][0]
+            tr["pos"] = [p + shift for p in tr["pos"]]
+            tr["length"] = tr["pos"][-1] + rng.choice([1, 2]) * W.LATTICE
+            rel = [tr["pos"][-1] - p for p in reversed(tr["pos"])]
+            refs.append(tr)
+            qs[-1] = {"id": qs[-1]["id"], "length": rel[-1] + 1.0, "pos": rel, "family": "tight"}
         queries, twins = [], {}
         for q, tid in zip(qs, ids[n:]):
             last = q["pos"][-1]
